@@ -4,7 +4,9 @@
    proves the middle of that path on the specification side: the server returns the stored bytes and flags for
    that key and no other (Spec/Server.v), and a strict reader of the reply gets exactly the items back whatever
    the data contains (Spec/Reply.v); and END TO END on the Client model (the c04_e2e theorems, Proofs/E2EFetch.v):
-   on a connected client with nothing pending, a fault-free transport and the specification server as the peer,
+   on a client that is connected with nothing pending (fr = Some sid: Start = Done = St sid s [], the connection is kept) or, with
+   fr = None, any ready client - closed or connected, connecting first if it must (Proofs/QuietAny.v) -, a fault-free transport and
+   the specification server as the peer,
      c04_e2e_get / c04_e2e_gets      return the deserialised item the server holds under the prefixed key (or the default),
      c04_e2e_get_many                returns, for any number of keys with pairwise different wire keys, each live item
                                      under the caller's own key and nothing else,
@@ -20,7 +22,7 @@
    replaces the serializer's flags and is outside the property. *)
 From Coq Require Import ZArith List Bool.
 From PM Require Import Lib.Py Spec.LegalKey Model.Lits Spec.Proto Spec.Server Spec.Reply Proofs.C04Proof
-                       Model.World Model.Client Proofs.Hoare Proofs.C02Proof Proofs.Quiet Proofs.E2E Proofs.E2EFetch Proofs.C15Proof Gen.Handlers.
+                       Model.World Model.Client Proofs.Hoare Proofs.C02Proof Proofs.Quiet Proofs.QuietConnect Proofs.QuietAny Proofs.E2E Proofs.E2EFetch Proofs.C15Proof Gen.Handlers.
 Import ListNotations.
 Open Scope Z_scope.
 
@@ -59,38 +61,38 @@ Theorem c04_server_invariant : forall now, swf (empty_server now) /\
 Proof. intros now. split; [apply swf_empty|]. split; [exact exec_swf|exact tick_swf]. Qed.
 
 Theorem c04_e2e_get : forall c, c_ignore_exc c = false -> h_fetch c = BaseException ->
-  forall sid s key default k, check_key c (c_prefix c) key = Ok k -> swf s ->
-  hoare (St sstate sid s []) (run_op sstate serve c (OpGet key default))
-        (fun v w => match live s k with None => v = default | Some it => deser c it = Ok v end /\ St sstate sid s [] w)
+  forall fr, connectable c fr -> forall s key default k, check_key c (c_prefix c) key = Ok k -> swf s ->
+  hoare (Start sstate fr s) (run_op sstate serve c (OpGet key default))
+        (fun v w => match live s k with None => v = default | Some it => deser c it = Ok v end /\ Done sstate fr s w)
         (fun e w => (exists it, live s k = Some it /\ deser c it = Raise e) /\ w_sock w = None).
 Proof. exact E2EFetch.get_e2e. Qed.
 Print Assumptions c04_e2e_get.
 Theorem c04_e2e_gets : forall c, c_ignore_exc c = false -> h_fetch c = BaseException ->
-  forall sid s key default cas_default k, check_key c (c_prefix c) key = Ok k -> swf s ->
-  hoare (St sstate sid s []) (run_op sstate serve c (OpGets key default cas_default))
+  forall fr, connectable c fr -> forall s key default cas_default k, check_key c (c_prefix c) key = Ok k -> swf s ->
+  hoare (Start sstate fr s) (run_op sstate serve c (OpGets key default cas_default))
         (fun v w => match live s k with
                     | None => v = DTuple [default; cas_default]
-                    | Some it => exists x, deser c it = Ok x /\ v = DTuple [x; DBytes (str_of_Z (i_cas it))] end /\ St sstate sid s [] w)
+                    | Some it => exists x, deser c it = Ok x /\ v = DTuple [x; DBytes (str_of_Z (i_cas it))] end /\ Done sstate fr s w)
         (fun e w => (exists it, live s k = Some it /\ deser c it = Raise e) /\ w_sock w = None).
 Proof. exact E2EFetch.gets_e2e. Qed.
 Theorem c04_e2e_get_many : forall c, c_ignore_exc c = false -> h_fetch c = BaseException ->
-  forall sid s (g oneshot : bool) keys pks, wire_keys c (c_prefix c) keys = Ok pks -> keys <> [] -> NoDup pks -> swf s ->
-  hoare (St sstate sid s []) (run_op sstate serve c (if g then OpGetsMany oneshot keys else OpGetMany oneshot keys))
-        (fun v w => (exists res, many_spec c g s (combine pks keys) [] = Ok res /\ v = DDict res) /\ St sstate sid s [] w)
+  forall fr, connectable c fr -> forall s (g oneshot : bool) keys pks, wire_keys c (c_prefix c) keys = Ok pks -> keys <> [] -> NoDup pks -> swf s ->
+  hoare (Start sstate fr s) (run_op sstate serve c (if g then OpGetsMany oneshot keys else OpGetMany oneshot keys))
+        (fun v w => (exists res, many_spec c g s (combine pks keys) [] = Ok res /\ v = DDict res) /\ Done sstate fr s w)
         (fun e w => many_spec c g s (combine pks keys) [] = Raise e /\ w_sock w = None).
 Proof. exact E2EFetch.get_many_e2e. Qed.
 Print Assumptions c04_e2e_get_many.
 Theorem c04_e2e_set_then_get : forall c, c_ignore_exc c = false -> h_fetch c = BaseException ->
   (forall e, exn_isa e Exception_ = true -> exn_isa e (h_store c) = true) ->
-  forall sid s key value expire n bytes default x,
+  forall fr, connectable c fr -> forall s key value expire n bytes default x,
   let nr := eff_noreply c n in
   store_bytes c (verb_name 0) [(key, value)] expire nr DNone None = Ok bytes -> in_i64 expire ->
   roundtrips c value -> swf s ->
   (forall e, int_value expire = Some e -> abs_exp (s_now s) e = Some x /\ (x = 0 \/ s_now s < x)) ->
   exists db,
-  hoare (St sstate sid s []) (mbind (run_op sstate serve c (OpStore 0 key value expire n DNone)) (fun _ => run_op sstate serve c (OpGet key default)))
-        (fun v w => v = comes_back c value db /\ exists s', St sstate sid s' [] w) (fun _ _ => False).
-Proof. exact E2EFetch.set_then_get_e2e. Qed.
+  hoare (Start sstate fr s) (mbind (run_op sstate serve c (OpStore 0 key value expire n DNone)) (fun _ => run_op sstate serve c (OpGet key default)))
+        (fun v w => v = comes_back c value db /\ exists s', Done sstate fr s' w) (fun _ _ => False).
+Proof. intros c Hi Hf Hst fr Hcan. exact (E2EFetch.set_then_get_e2e c Hi Hf fr Hcan Hst). Qed.
 Print Assumptions c04_e2e_set_then_get.
 (* bytes, str and int values need no assumption on the oracles (PickleSerde) ... *)
 Theorem c04_roundtrips_native : forall c value, native value -> c_serde c <> 2 -> roundtrips c value.
@@ -101,19 +103,19 @@ Print Assumptions c04_roundtrips_native.
 Theorem c04_e2e_set_then_get_any : forall c, c_ignore_exc c = false -> h_fetch c = BaseException ->
   (forall e, exn_isa e Exception_ = true -> exn_isa e (h_store c) = true) ->
   c_serde c = 1 \/ c_serde c = 2 ->
-  forall sid s key value expire n bytes default x,
+  forall fr, connectable c fr -> forall s key value expire n bytes default x,
   let o := c_orc c in let nr := eff_noreply c n in
   store_bytes c (verb_name 0) [(key, value)] expire nr DNone None = Ok bytes -> in_i64 expire ->
   (pickled value = true -> o_loads o (o_dumps o (o_pickle_version o) value) = Ok value) ->
   (c_serde c = 2 -> forall b, o_decompress o (o_compress o b) = Ok b) -> swf s ->
   (forall e, int_value expire = Some e -> abs_exp (s_now s) e = Some x /\ (x = 0 \/ s_now s < x)) ->
-  hoare (St sstate sid s []) (mbind (run_op sstate serve c (OpStore 0 key value expire n DNone)) (fun _ => run_op sstate serve c (OpGet key default)))
-        (fun v w => v = value /\ exists s', St sstate sid s' [] w) (fun _ _ => False).
+  hoare (Start sstate fr s) (mbind (run_op sstate serve c (OpStore 0 key value expire n DNone)) (fun _ => run_op sstate serve c (OpGet key default)))
+        (fun v w => v = value /\ exists s', Done sstate fr s' w) (fun _ _ => False).
 Proof.
-  intros c Hi Hf Hst Hsd sid s key value expire n bytes default x. cbn zeta. intros Hb He Hp Hc Hs Hx.
+  intros c Hi Hf Hst Hsd fr Hcan s key value expire n bytes default x. cbn zeta. intros Hb He Hp Hc Hs Hx.
   assert (Hr : roundtrips c value).
   { right. split; [exact Hp|]. intros E2. apply Hc. apply Z.eqb_eq, E2. }
-  destruct (E2EFetch.set_then_get_e2e c Hi Hf Hst sid s key value expire n bytes default x Hb He Hr Hs Hx) as (db & H).
+  destruct (E2EFetch.set_then_get_e2e c Hi Hf fr Hcan Hst s key value expire n bytes default x Hb He Hr Hs Hx) as (db & H).
   eapply h_conseq; [exact H|auto| |auto].
   intros v w [Hv Hw]. split; [|exact Hw]. rewrite Hv. unfold comes_back.
   destruct (Z.eqb_spec (c_serde c) 0) as [E0|_]; [destruct Hsd as [X|X]; rewrite E0 in X; discriminate|reflexivity].
@@ -121,14 +123,14 @@ Qed.
 Print Assumptions c04_e2e_set_then_get_any.
 Theorem c04_e2e_set_keeps_other : forall c, c_ignore_exc c = false -> h_fetch c = BaseException ->
   (forall e, exn_isa e Exception_ = true -> exn_isa e (h_store c) = true) ->
-  forall sid s key value expire n bytes key2 k2 default,
+  forall fr, connectable c fr -> forall s key value expire n bytes key2 k2 default,
   let nr := eff_noreply c n in
   store_bytes c (verb_name 0) [(key, value)] expire nr DNone None = Ok bytes -> in_i64 expire -> swf s ->
   check_key c (c_prefix c) key2 = Ok k2 -> (forall k, check_key c (c_prefix c) key = Ok k -> list_eqb k k2 = false) ->
-  hoare (St sstate sid s []) (mbind (run_op sstate serve c (OpStore 0 key value expire n DNone)) (fun _ => run_op sstate serve c (OpGet key2 default)))
-        (fun v w => match live s k2 with None => v = default | Some it => deser c it = Ok v end /\ exists s', St sstate sid s' [] w)
+  hoare (Start sstate fr s) (mbind (run_op sstate serve c (OpStore 0 key value expire n DNone)) (fun _ => run_op sstate serve c (OpGet key2 default)))
+        (fun v w => match live s k2 with None => v = default | Some it => deser c it = Ok v end /\ exists s', Done sstate fr s' w)
         (fun e w => (exists it, live s k2 = Some it /\ deser c it = Raise e) /\ w_sock w = None).
-Proof. exact E2EFetch.set_keeps_other_e2e. Qed.
+Proof. intros c Hi Hf Hst fr Hcan. exact (E2EFetch.set_keeps_other_e2e c Hi Hf fr Hcan Hst). Qed.
 Print Assumptions c04_e2e_set_keeps_other.
 (* the handler classes the theorems assume are the ones in the source (read on every run) *)
 Theorem c04_src_handlers : src_h_fetch = BaseException /\ src_h_store = BaseException.
@@ -175,4 +177,20 @@ Proof.
   cbn zeta. split; [split; [reflexivity|split; [reflexivity|intros e _; destruct e; reflexivity]]|].
   split; [reflexivity|]. split; [reflexivity|]. split; [intros b; cbn; rewrite rev_involutive; reflexivity|].
   vm_compute. repeat split; reflexivity.
+Qed.
+
+(* non-vacuity of the fr = None reading: a client that has never connected (no socket, no connection yet) is a legal start; the
+   same two stores and the get_many connect first and return the same result on the new connection *)
+Definition ex_world_closed : world sstate := {| w_script := []; w_choices := [CChunk 3; CChunk 1; CChunk 4096]; w_peer := empty_server 100; w_conns := [];
+  w_buf := []; w_discarded := []; w_bad := false; w_trace := []; w_next := 1; w_sock := None |}.
+Example c04_e2e_closed_ex :
+  let nasty := DBytes [13; 10; 69; 78; 68; 13; 10; 86; 65; 76; 85; 69; 32; 120; 32; 48; 32; 49; 13; 10] in
+  connectable ex_cfg None /\ Start sstate None (empty_server 100) ex_world_closed /\
+  let '(r, w) := mbind (run_op sstate serve ex_cfg (OpStore 0 (DStr [107]) nasty (DInt 0) DNone DNone))
+                  (fun _ => mbind (run_op sstate serve ex_cfg (OpStore 0 (DBytes [106]) (DStr [233; 8364]) (DInt 50) (DBool false) DNone))
+                  (fun _ => run_op sstate serve ex_cfg (OpGetMany false [DBytes [106]; DStr [122]; DStr [107]]))) ex_world_closed in
+  r = Ok (DDict [DTuple [DBytes [106]; DStr [233; 8364]]; DTuple [DStr [107]; nasty]]) /\ w_buf w = [] /\ w_conns w = [(1, [])] /\ w_sock w = Some 1.
+Proof.
+  cbn zeta. split; [intros _; left; reflexivity|].
+  split; [right; unfold Closed, K, Quiet.normal_script, anybuf; cbn; repeat split; repeat constructor|]. vm_compute. repeat split; reflexivity.
 Qed.
